@@ -8,7 +8,7 @@
    kept), which pins it uniquely. *)
 From Coq Require Import String List Arith Bool ZArith Permutation.
 Import ListNotations.
-From NP Require Import Base Values Arrow Frame Proofs_Pack.
+From NP Require Import Base Values Arrow Abs Kernels Logical Frame Bridge Proofs_Pack Proofs_Bridge.
 
 Theorem C02_flatten_of_pack : forall t,
   exists g, m_pack_flat t = Ok g /\ flatten_packed g = stable_sort_key t /\ strict_inc (map fst g) = true
@@ -44,6 +44,27 @@ Print Assumptions C02_pack_sorted_lossless.
 Theorem C02_unsorted_refused : forall t, is_mono_inc (map fst t) = false -> m_pack_sorted t = Err.
 Proof. exact pack_sorted_err. Qed.
 Print Assumptions C02_unsorted_refused.
+
+(* the list view: packing list-valued columns (packer.pack_lists) on the PHYSICAL level gives, row by row, exactly the offered
+   lists with no row missing - in the chunk-aligned branch and in the combine branch alike - and refuses ragged columns *)
+Theorem C02_pack_lists_any_chunking : forall cols n, cols <> [] ->
+  forallb (lcolumn_ok n) cols = true ->
+  (forall c, In c cols -> map (fun o => length (olist o)) (column_rows c)
+                          = map (fun o => length (olist o)) (column_rows (hd (EmptyString, TI64, []) cols))) ->
+  exists p, m_pack_lists cols true = Ok p /\
+            lvalidity (abs p) = repeat true n /\
+            lcols (abs p) = map (fun c => map (@olist val) (column_rows c)) cols /\
+            lsch (abs p) = map (fun c => (fst (fst c), snd (fst c))) cols.
+Proof. exact pack_lists_abs. Qed.
+Print Assumptions C02_pack_lists_any_chunking.
+
+Theorem C02_pack_lists_ragged_refused : forall cols n, cols <> [] ->
+  forallb (lcolumn_ok n) cols = true ->
+  (exists c, In c cols /\ map (fun o => length (olist o)) (column_rows c)
+                         <> map (fun o => length (olist o)) (column_rows (hd (EmptyString, TI64, []) cols))) ->
+  m_pack_lists cols true = Err.
+Proof. exact pack_lists_ragged_refused. Qed.
+Print Assumptions C02_pack_lists_ragged_refused.
 
 Example C02_nonvacuous :
   m_pack_flat [(3%Z, [VInt 1]); (1%Z, [VInt 2]); (3%Z, [VInt 3]); (2%Z, [VNull]); (1%Z, [VInt 5])]
